@@ -185,6 +185,9 @@ var focusPaths = [][]string{ //nolint:gochecknoglobals // one directory and its 
 func pickPath(t *sim.Tape, cfg *concCfg, adversarial bool) string {
 	if cfg.Focus > 0 && !t.Chance(100) {
 		fp := focusPaths[cfg.Focus]
+		if cfg.Symlinks && cfg.Focus == 1 {
+			fp = append(append([]string(nil), fp...), "/a/l", "/a/lb")
+		}
 
 		return fp[t.Int(len(fp))]
 	}
